@@ -47,7 +47,13 @@ TEXTS = [
     # labels that are both a literal row and matched by a compiled row of the taxonomy (aliased list append)
     "acc = 0\nfor i in range(5):\n    acc = acc + i\nprint(acc)\n",
     "l = list(range(3))\nd = dict()\nb = bool(1)\nprint(l, d, b)\n",
+    # the same code as the text above "acc = acc + i" one, carrying manual hints (one addition, one deletion):
+    # after `get_program` the stored source is identical, only the scheduled hints differ
+    "acc = 0 # paroxython: extra_label\nfor i in range(5):\n    acc = acc + i # paroxython: -addition_operator\nprint(acc)\n",
+    "x = 1 # paroxython: my_hint\n",
+    "import os # paroxython: -import_module:os\nprint(os.getcwd()) # paroxython: io_hint\n",
 ]
+BASE_OF_HINTED = {20: 18, 21: 0, 22: 1}  # index of a hinted text -> index of the hint-free text with the same code
 
 
 class Proc:
@@ -66,17 +72,31 @@ class Proc:
         real_create, real_read = dldb.create, dldb.read
         me = self
 
+        real_update = dldb.update
+        me.in_create = False
+
         def create(labels, *a, **k):
             me.create_args = [(l.name, [tuple(s) for s in l.spans]) for l in labels]
-            return real_create(labels, *a, **k)
+            me.in_create = True
+            try:
+                return real_create(labels, *a, **k)
+            finally:
+                me.in_create = False
 
         def read(query, *a, **k):
             r = real_read(query, *a, **k)
-            me.answers.append([(l.name, [tuple(s) for s in l.spans]) for l in r])
+            # the labels the parser KEEPS for this query = what it inserts back with `update` (the rows of the
+            # query minus the occurrences scheduled for deletion by a hint); nothing is inserted when none is left
+            me.answers.append([])
             me.traces.append(me.tables())
             return r
 
-        dldb.create, dldb.read = create, read  # instance attributes of OUR parser's database
+        def update(labels, *a, **k):
+            if not me.in_create and me.answers:
+                me.answers[-1] = [(l.name, [tuple(s) for s in l.spans]) for l in labels]
+            return real_update(labels, *a, **k)
+
+        dldb.create, dldb.read, dldb.update = create, read, update  # instance attributes of OUR parser's database
 
     def tables(self):
         c = self.parser.derived_labels_database.c
@@ -187,6 +207,12 @@ def stream_sequences(ctx, drv, n_seq):
     queries = [[q, prereq(probe.queries[q])] for q in query_ids]
     texts = list(TEXTS)
     recs = [reference(t, query_ids) for t in texts]
+    from paroxython.list_programs import get_program
+    for h, b in BASE_OF_HINTED.items():
+        if str(get_program(texts[h], Path("p.py")).source) != str(get_program(texts[b], Path("p.py")).source):
+            ctx.notes.append(f"hinted text {h} and its base {b} do not have the same stored source")
+            ctx.broken.append("generator:hinted-pairs")
+        ctx.dist("seq.hinted_pairs_checked")
     lit0 = Proc().lit0
     taxon_like, compiled = taxonomy_oracles(recs, lit0)
     progs_req = [{k: r[k] for k in ("parsed", "lines", "reprs", "labels0", "answers", "taxa")} | {"out_names": r["model_names"]}
@@ -199,6 +225,16 @@ def stream_sequences(ctx, drv, n_seq):
         seq = [ctx.rng.randrange(len(texts)) for _ in range(k)]
         if si == 0:
             seq = [2, 8, 2, 9, 5, 5, 3, 10, 2]  # repeats around invalid/empty programs
+        elif si == 1:
+            seq = [18, 20, 18, 20, 0, 21, 22, 1]  # hint-free first, then the same code with hints
+        elif si == 2:
+            seq = [20, 18, 21, 0, 1, 22, 20]  # hinted first, then the same code without hints
+        elif ctx.rng.random() < 0.4:
+            h = ctx.rng.choice(list(BASE_OF_HINTED))
+            pair = [BASE_OF_HINTED[h], h]
+            ctx.rng.shuffle(pair)
+            at = ctx.rng.randrange(len(seq) + 1)
+            seq = seq[:at] + pair + seq[at:]
         if ctx.rng.random() < 0.3:
             seq = seq + [seq[0]] + seq[:2]
         proc = Proc()
@@ -333,6 +369,17 @@ def stream_collections(ctx, drv, n):
         ({"p.q.py": "", "pkg/m.n.py": "k = 1\n", "t.py": "import p.q\nimport pkg.m.n\nfrom p import q\nt = 1\n", "pkg/s.py": "import t\n"},
          [["t.py"], ["t.py", "pkg/s.py"], ["t.py", "p.q.py"]]),
     ]
+    base_code = "acc = 0\nfor i in range(5):\n    acc = acc + i\nprint(acc)\n"
+    hinted_code = ("acc = 0 # paroxython: extra_label\nfor i in range(5):\n    acc = acc + i # paroxython: -addition_operator\n"
+                   "print(acc)\n")
+    fixed += [
+        # identical code after cleaning; the hint-free copy sorts (and is tagged) first
+        ({"a.py": base_code, "b.py": hinted_code, "c.py": "import a\n"}, [["b.py"], ["b.py", "c.py"], ["a.py", "b.py"]]),
+        ({"a.py": "x = 1\n", "m.py": "# a comment\nx = 1 # paroxython: my_hint\n", "z.py": "x = 1  # paroxython: -assignment\n"},
+         [["m.py"], ["z.py"], ["m.py", "z.py"]]),
+        # the hinted copy first
+        ({"a.py": hinted_code, "b.py": base_code}, [["b.py"], ["a.py"]]),
+    ]
     for ci in range(n + len(fixed)):
         k = ctx.rng.randrange(3, 6)
         files = {}
@@ -346,6 +393,17 @@ def stream_collections(ctx, drv, n):
             if ctx.rng.random() < 0.2:
                 imports += f"import {names[i]}\n"
             files[f"{names[i]}.py"] = imports + body
+        if fixed_subsets is None and ctx.rng.random() < 0.3:
+            # a hinted copy of one of the programs (same code after cleaning), sorted after it
+            src = ctx.rng.choice([p for p in files])
+            lines = files[src].split("\n")
+            cands = [j for j, l in enumerate(lines) if l.strip() and not l.rstrip().endswith((":", ",", "(", "\\")) and "#" not in l
+                     and "'" not in l and '"' not in l]
+            if cands:
+                j = ctx.rng.choice(cands)
+                lines[j] = lines[j] + " # paroxython: extra_hint_label"
+                files["zz_" + src] = "\n".join(lines)
+                ctx.dist("subcollection.hinted_copy")
         if fixed_subsets is None and ctx.rng.random() < 0.4:
             # a collected file (or directory) whose name looks like a dotted module, imported by name elsewhere
             mod = ctx.rng.choice(["os.path", "xml.dom", "collections.abc", "a.b", "zz.yy.xx"])
@@ -494,7 +552,8 @@ def run(ctx):
         "sqlite_master of the parser's connection, Taxonomy.literal_labels",
     ]
     ctx.assumptions += [
-        "each call gets a fresh Program object (get_program): hints scheduled for deletion are consumed by a call",
+        "each call gets a fresh Program object (get_program): hints scheduled for deletion are consumed by a call; "
+        "the text of a program includes its hint comments (two texts with the same code and different hints are two programs)",
         "SQL queries do not raise between create and delete (then the boundary invariant would be lost: C03_leak_breaks)",
     ]
     if (not ctx.proofs_ok or ctx.broken) and not any(v.get("signature") is None for v in ctx.violations):
